@@ -12,7 +12,8 @@ CFG = dict(
              "keepers, external-liquidity ratios, snapshots and weight-breaking-fee parameters; types.Pow): reserves log-uniform 10^0..10^30, weights "
              "{1:1,1:2,1:4,20:80,random}, fees {0,1bp..2%,tier-discounted}, trade sizes 1..reserve-1, accounted balances, plus a "
              "boundary lattice (dust, amount = reserve, reserve+-1, Quo ties, reserves around 10^18, zero/huge values); an evaluation "
-             "is one call; non-trivial = the call succeeded; distinct = distinct (function, arguments, result) tuples",
+             "is one call; non-trivial = the call succeeded; distinct = distinct (function, arguments, result) tuples; plus history mode on the real app (driver C03H: amm-focused "
+             "histories and the scenario c03-bonus-from-treasury; an evaluation is one block)",
         trusted_base=COMMON_TB + ["oracle / accounted-pool keepers replaced by table-driven stubs (not consulted for prices by non-oracle pools)",
                                   "reference value of the weighted-product formula for unequal weights: math/big.Float at 420 bits in the harness"],
         assumptions=["the oracle branches of SwapOutAmtGivenIn/SwapInAmtGivenOut are ported, checked differentially, and PROVED to pay out no more value than is paid in at the oracle prices "
